@@ -131,6 +131,17 @@ pub fn build(
         };
 
         let vftable_path = vftable_type.path.clone();
+        // The generated type is registered again every time resolution of this type is
+        // attempted; anything else under that name is a definition of the user's.
+        if semantic
+            .type_registry
+            .get(&vftable_path)
+            .is_some_and(|existing| *existing != vftable_type)
+        {
+            anyhow::bail!(
+                "the vftable type `{vftable_path}` generated for `{resolvee_path}` conflicts with another definition of that name"
+            );
+        }
         let vftable_pointer_type = Type::ConstPointer(Box::new(Type::Raw(vftable_path)));
         semantic.add_item(vftable_type)?;
 
